@@ -927,7 +927,7 @@ def run(ctx):
     if ctx.worker in (None, 0):
         fixed_cases(ctx, judge, enc_mod)
     n = ctx.scale(30000, 1200000)
-    budget = 35 if ctx.quick else 330
+    budget = 35 if ctx.quick else 270
     for i in range(n):
         if i % 256 == 0 and ctx.time_left(budget) < 0:
             ctx.note("stopped by time budget after %d statements" % i)
